@@ -61,6 +61,8 @@ def check_case(case, ctx):
         ctx.case(case, False)
         return
     p, rx = built
+    pat.apply_state(p, case.get('state', 'plain'))
+    ctx.count(f"state:{case.get('state', 'plain')}")
     ie, rel = case['include_empty'], case['relative']
     what = f"{dsl.render(case['tree'])} (pattern {str(p)!r})"
     interesting = False
@@ -128,7 +130,7 @@ def layout_strategy():
 
 def strategy(spec, ctx):
     if ctx.shard_index % 2 == 0:
-        return st.fixed_dictionaries({'tree': layout_strategy(), 'tseed': st.integers(0, 2 ** 16),
+        return st.fixed_dictionaries({'tree': layout_strategy(), 'tseed': st.integers(0, 2 ** 16), 'state': st.sampled_from(pat.STATES),
                                       'include_empty': st.booleans(), 'relative': st.booleans()})
     feats = ['cap', 'cap', 'cap', 'cat', 'alt', 'q', 'grp', 'cls', 'strarg', 'look', 'enc']
     if ctx.shard_index % 3 == 1:
@@ -138,6 +140,7 @@ def strategy(spec, ctx):
         'tseed': st.integers(0, 2 ** 16),
         'include_empty': st.booleans(),
         'relative': st.booleans(),
+        'state': st.sampled_from(pat.STATES),
     })
 
 
